@@ -98,15 +98,29 @@ int main(int argc, char** argv) {
         const char* name = pass ? (const char*) ExtendedZone(zonedbx::kZoneRegistry[i]).name() : (const char*) BasicZone(zonedb::kZoneRegistry[i]).name();
         long t = 615000000;
         ZonedDateTime za = ZonedDateTime::forEpochSeconds((acetime_t) t, a);
+        std::string first = pr(za);                                                   // (a second use of the first zone: a cache hit)
         ZonedDateTime zb = ZonedDateTime::forEpochSeconds((acetime_t) t, b2);      // the shared processor now serves the other zone
+        if (via) { TimeZone c3 = pass ? xm.createForZoneIndex((uint16_t) ((i + 2) % nz)) : bm.createForZoneIndex((uint16_t) ((i + 2) % nz)); ZonedDateTime zc = ZonedDateTime::forEpochSeconds((acetime_t) t, c3); if (zc.isError()) fail("zoned date-time is error (third zone)", name, t, i); }
         n++;
         if (za.isError() || zb.isError()) { fail("zoned date-time is error (shared processor)", name, t, i); continue; }
         std::string zt = pr(za);
         std::string want = pr(OffsetDateTime::forLocalDateTimeAndOffset(za.localDateTime(), za.timeOffset())) + "[" + name + "]";
         if (zt != want) fail("ZonedDateTime printed after another zone used its processor", zt, t, i);
+        if (first != want) fail("ZonedDateTime printed form (second use)", first, t, i);
         ZonedDateTime back = ZonedDateTime::forDateString(zt.c_str());
         if (back.isError() || (long) back.toEpochSeconds() != t) fail("ZonedDateTime parse(print) after another zone used its processor", zt, t, i);
       }
+    }
+    // error values whose only defect is an hour above 24 (minute and second 0) print the placeholder like any other error
+    for (int h : {25, 26, 48, 100, 255}) {
+      LocalTime lt = LocalTime::forComponents((uint8_t) h, 0, 0);
+      LocalDateTime ldt = LocalDateTime::forComponents(2020, 1, 2, (uint8_t) h, 0, 0);
+      OffsetDateTime odt = OffsetDateTime::forComponents(2020, 1, 2, (uint8_t) h, 0, 0, TimeOffset::forHours(1));
+      ZonedDateTime zdt = ZonedDateTime::forComponents(2020, 1, 2, (uint8_t) h, 0, 0, TimeZone::forUtc());
+      if (pr(lt) != "<Invalid LocalTime>") fail("placeholder LocalTime (hour above 24)", pr(lt), h, 0);
+      if (pr(ldt) != "<Invalid LocalDateTime>") fail("placeholder LocalDateTime (hour above 24)", pr(ldt), h, 0);
+      if (pr(odt) != "<Invalid OffsetDateTime>") fail("placeholder OffsetDateTime (hour above 24)", pr(odt), h, 0);
+      if (pr(zdt) != "<Invalid ZonedDateTime>") fail("placeholder ZonedDateTime (hour above 24)", pr(zdt), h, 0);
     }
     // manual zones print their offsets
     if (pr(TimeZone::forUtc()) != "UTC") fail("UTC zone name", pr(TimeZone::forUtc()), 0, 0);
